@@ -19,12 +19,16 @@ Init == l = 1 /\ L = 1
 Ev(e) == l <= Len(Log) /\ Log[l].e = e /\ l' = l + 1
 
 TReset == Ev("Reset") /\ L' = 1
+\* (obs: the build exports the memo table, so its length is observed; otherwise the table is private to the library, the history
+\* ran in a fresh process, the model's L advances on its own and only the returned values are judged)
 TFact == Ev("Fact") /\ LET ev == Log[l] IN
            /\ FactDefined(ev.n)
-           /\ ev.Lb = L                                   \* the table is what the calls so far made it
-           /\ ev.La = LAfter(L, ev.n) /\ L' = ev.La       \* grows to n+1 entries, never shrinks
-           /\ ("Lspec" \in DOMAIN ev => ev.Lspec = ev.La) \* ... and that is what MC_Gamma's Memo machine exported for this history
-           /\ ev.stable                                   \* entries never change once written
+           /\ ev.ret                                      \* the call returned
+           /\ L' = LAfter(L, ev.n)                        \* grows to n+1 entries, never shrinks
+           /\ ev.obs => /\ ev.Lb = L                      \* the table is what the calls so far made it
+                        /\ ev.La = LAfter(L, ev.n)
+                        /\ ("Lspec" \in DOMAIN ev => ev.Lspec = ev.La) \* ... and that is what MC_Gamma's Memo machine exported for this history
+                        /\ ev.stable                      \* entries never change once written
            /\ ev.q <= 1 /\ ev.recq <= 1                   \* returns n! whatever L was
 TGammaAt == Ev("GammaAt") /\ Log[l].lnq <= 1 /\ Log[l].gq <= 1 /\ UNCHANGED L
 TBinom == Ev("Binom") /\ LET ev == Log[l] IN ev.q <= 1 /\ ev.symq <= 1 /\ ev.pasq <= 1 /\ ev.zero /\ UNCHANGED L
